@@ -45,8 +45,9 @@ GRID_LARGE = {
     "log_normal": [(60000, 1.3)],
     "poisson": [(90000,)],
     "schulz_zimm": [(75000, 50000)],
+    "flory_schulz": [(2e-5,)],
 }
-GRID_LARGE_THOROUGH = {"schulz_zimm": [(200000, 150000), (120000, 100000)], "flory_schulz": [(2e-5,)], "log_normal": [(250000, 1.8)], "gauss": [(1e6, 1e5)]}
+GRID_LARGE_THOROUGH = {"schulz_zimm": [(200000, 150000), (120000, 100000)], "flory_schulz": [(5e-6,)], "log_normal": [(250000, 1.8)], "gauss": [(1e6, 1e5)]}
 
 
 def plan(tier, seed):
